@@ -35,7 +35,7 @@ func c10Corpus(env run.Env) corpus {
 	if env.Thorough {
 		return newCorpus("C10", gen.Domain{}, 120, 5000000)
 	}
-	return newCorpus("C10", gen.Domain{}, 4, 14000)
+	return newCorpus("C10", gen.Domain{}, 12, 14000)
 }
 
 func (c10) Phases(env run.Env) []run.Phase {
